@@ -425,9 +425,9 @@ pub fn run(ctx: &Ctx) {
     zoo::warm(&[Kind::Ed25519V4, Kind::Ed25519V6, Kind::RsaV4, Kind::P256V4]);
     let bodies = harvest();
     ctx.note("harvested_bodies", serde_json::json!(bodies.len()));
-    let n = ctx.tier.pick(30_000u64, 600_000);
+    let n = ctx.tier.pick(30_000u64, 4_800_000);
     ctx.group("legal-framings", Source::Random { n, tape_len: 160 }, |t, rec| legal_case(t, rec, &bodies));
-    let n = ctx.tier.pick(10_000u64, 200_000);
+    let n = ctx.tier.pick(10_000u64, 1_600_000);
     ctx.group("illegal-framings", Source::Random { n, tape_len: 120 }, illegal_case);
     let lens: Vec<usize> = if ctx.tier == Tier::Thorough { vec![518, 600, 1024 + 6, 1536, 2048 + 6, 2054, 3000, 4102, 8198, 8200, 9000, 12000, 16390, 20000] } else { vec![518, 1030, 1536, 2054, 4102, 8198, 9000] };
     let seqs = enumerate_partials(20000, &lens);
